@@ -16,8 +16,8 @@ RULE = ("one case = (method, dtype, sign of h, state shape, program seed, call h
         "non-trivial = >=1 accepted step; distinct by (method,dtype,sign,shape,seed,history)")
 ASSUMPTIONS = ["explicit threshold 64*eps*(1+sum|a_ij|)*(1+max|k|)*(1+L|h|); implicit threshold 4*desired_tol + rounding, "
                "desired_tol recomputed from the inputs exactly as the library's step() does"]
-FLOORS = {"quick": {"accepted_steps": 300, "stage_equations_checked": 1500, "newton_failure_then_retry": 1, "second_calls": 60, "insitu_steps": 300},
-          "thorough": {"accepted_steps": 3000, "stage_equations_checked": 15000, "newton_failure_then_retry": 5, "second_calls": 600, "insitu_steps": 3000}}
+FLOORS = {"quick": {"accepted_steps": 300, "stage_equations_checked": 1500, "newton_failure_then_retry": 1, "second_calls": 60, "insitu_steps": 300, "stiff_reduced_precision_steps": 15},
+          "thorough": {"accepted_steps": 3000, "stage_equations_checked": 15000, "newton_failure_then_retry": 5, "second_calls": 600, "insitu_steps": 3000, "stiff_reduced_precision_steps": 120}}
 K_EXPL = 64.0
 K_IMPL = 4.0
 K_SPLIT = 128.0
@@ -61,6 +61,13 @@ def gen_cases(tier, seed):
         name = "LobattoIIIC2" if r % 8 else [n for n in impl if M[n]["stages"] <= 3][int(rng.integers(len([n for n in impl if M[n]["stages"] <= 3])))]
         cases.append(dict(method=name, dtype="longdouble", sign=int(rng.choice([-1, 1])), h=float(rng.choice([-1, 1])) * float(rng.choice([0.75, 1.0, 1.5, 2.5])), t0=0.0, shape=[2],
                           pseed=int(rng.integers(1 << 30)), history=["end"], hard=False, poly=True, tol=float(rng.choice([1e-13, 1e-13, 1e-11])), cost=6))
+    # reduced precision + stiffness: in a float32 run a stage solve is still to be accepted only when the stage equations hold to the
+    # stated solver tolerance (h*|df/dy| up to 1e5 turns a slope rounded to float32 into a residual far above it)
+    small = [n for n in impl if M[n]["stages"] <= 3]
+    for r in range(90 if tier == "quick" else 600):
+        name = small[r % len(small)]
+        cases.append(dict(kind="stiff32", method=name, dtype="float32" if r % 5 else "float64", lam=float(10 ** rng.uniform(3, 5.5)), h=float(rng.choice([-1, 1])) * float(rng.choice([0.25, 0.1, 0.5])),
+                          offset=float(rng.choice([0.0, 0.01])), tol=float(rng.choice([0.0, 1e-6])), t0=float(rng.uniform(-1, 1)), pseed=int(rng.integers(1 << 30)), cost=3))
     # in situ: the same oracle attached (through a callback) to every step of real OdeSystem runs, across rejected steps, FSAL reuse,
     # successive integrate() calls and a change of the constants between two calls
     sysm = [n for n, i in M.items() if not i["splitting"]]
@@ -187,9 +194,68 @@ def _run_system(spec):
     return rec.out()
 
 
+def _run_stiff32(spec):
+    import desolver as de
+    from desolver.exception_types import FailedToMeetTolerances
+    M = util.methods()
+    info = M[spec["method"]]
+    dt = dtype_of(spec["dtype"])
+    lam = spec["lam"]
+    rec = util.Rec(sig="stiff32|%s|%s|%d|%s|%s" % (spec["method"], spec["dtype"], int(np.log10(lam)), spec["offset"], spec["pseed"] % 97))
+    feats = {"method": spec["method"], "family": info["family"], "dtype": spec["dtype"], "sign": 1 if spec["h"] > 0 else -1, "kind": "stiff32"}
+
+    def f(t, y, **kw):
+        # the stiff part is autonomous: the rounding of a stage TIME to the run's precision then enters with |d f/d t| <= 1, not with lam
+        return np.stack([-lam * (y[0] - 0.7) - y[0] ** 3 + y[1], -y[1] + np.sin(t)])
+
+    def jac(t, y, **kw):
+        return np.array([[-lam - 3 * y[0] ** 2, 1.0], [0.0, -1.0]])
+    rhs = de.DiffRHS(f)
+    rhs.hook_jacobian_call(jac)
+    kw = dict(rtol=spec["tol"], atol=spec["tol"]) if spec["tol"] else {}
+    intg = info["cls"]((2,), dtype=dt, **kw)
+    t0 = dt.type(spec["t0"])
+    y0 = np.array([0.7 + spec["offset"], 0.5], dtype=dt)
+    try:
+        _, (dT, dY) = intg(rhs, t0, y0.copy(), {}, dt.type(spec["h"]))
+    except FailedToMeetTolerances:
+        rec.bump("stiff_reduced_precision_refused")
+        return rec.out()
+    rec.bump("accepted_steps")
+    rec.bump("stiff_reduced_precision_steps" if spec["dtype"] == "float32" else "stiff_control_steps")
+    rec.nontrivial = True
+    A = np.asarray(info["cls"].tableau_intermediate, dtype=np.longdouble)
+    b = np.asarray(info["cls"].tableau_final, dtype=np.longdouble)[0, 1:]
+    Kst = np.asarray(intg.stage_values, dtype=np.longdouble)
+    c_run = np.asarray(intg.tableau_intermediate)[:, 0]          # abscissae in the precision of the integrator (stage times as it forms them)
+    y0l, dTl = y0.astype(np.longdouble), np.longdouble(dT)
+    resid = 0.0
+    for i in range(A.shape[0]):
+        ti = np.longdouble(t0 + c_run[i] * dT)
+        ki = np.asarray(f(ti, y0l + dTl * (Kst @ A[i, 1:])), dtype=np.longdouble)
+        resid = max(resid, float(np.sqrt(np.sum((Kst[:, i] - ki) ** 2))))
+    atol, rtol = float(intg.atol), float(intg.rtol)
+    stated = 0.5 * (atol + float(np.max(np.abs(rtol * y0.astype(np.float64))))) / max(abs(float(dT)), 1.0)
+    kmax = float(np.max(np.abs(Kst)))
+    # float64 rounding of the residual evaluation the solver itself performs (the stage solve runs in double precision whatever the run's dtype)
+    unit = 10 * stated + 64 * 2.3e-16 * (1 + kmax) * (1 + lam * abs(float(dT))) + 8 * float(np.finfo(dt).eps) * (abs(float(t0)) + abs(float(dT)))
+    rec.bump("stage_equations_checked", A.shape[0])
+    rec.worst("stiff_residual_over_unit_" + spec["dtype"], resid / unit)
+    rec.sample = {"spec": spec, "residual": resid, "stated_tolerance": stated, "accepted_dT": float(dT), "stage_dtype": str(np.asarray(intg.stage_values).dtype)}
+    if not np.isfinite(resid) or resid > unit:
+        rec.violate("implicit_stage_residual", "accepted_step_with_unsolved_stage_equations", feats, residual=resid, unit=unit, stated_tolerance=stated, lam=lam, dT=float(dT))
+    incr = float(np.max(np.abs(np.asarray(dY, dtype=np.longdouble) - dTl * (Kst @ b))))
+    uniti = 10 * stated * abs(float(dT)) + 8 * float(np.finfo(dt).eps) * abs(float(dT)) * kmax * float(np.sum(np.abs(b)))
+    if incr > uniti:
+        rec.violate("increment", "dState_differs_from_h_sum_b_k", feats, err=incr, unit=uniti)
+    return rec.out()
+
+
 def run_case(spec):
     if spec.get("kind") == "system":
         return _run_system(spec)
+    if spec.get("kind") == "stiff32":
+        return _run_stiff32(spec)
     import desolver as de
     M = util.methods()
     info = M[spec["method"]]
